@@ -67,6 +67,7 @@ func c12Spec() *histSpec {
 	sp := &histSpec{
 		ID:       "C12",
 		WithText: true,
+		Blind:    true,
 		Imports:  []zn.Import{{Name: "@JSON", Lib: true}},
 		SetupRef: func(rf *zn.Ref) {
 			rf.Libs = map[string]map[string]zn.V{"@JSON": {"生成JSON": &zn.FV{Builtin: "生成JSON"}, "解析JSON": &zn.FV{Builtin: "解析JSON"}}}
@@ -162,6 +163,9 @@ func c12Spec() *histSpec {
 		add("（换：1、2）", nil, show(zn.Call{Name: "换", Args: []zn.Expr{c12Num(1), c12Num(2)}}))
 		add("（换：1、len+1）", nil, show(zn.Call{Name: "换", Args: []zn.Expr{c12Num(1), c12Num(ll + 1)}}))
 		add("以L（合并：【v，7】）", nil, show(mcall(L, "合并", zn.List{Items: []zn.Expr{v, c12Num(7)}})))
+		// the receiver itself among the arguments (after a non-empty one, twice)
+		add("以L（合并：【v】、L）", nil, show(mcall(L, "合并", zn.List{Items: []zn.Expr{v}}, L)))
+		add("以L（合并：L、L）", nil, show(mcall(L, "合并", L, L)))
 		add("L之首项 = v", nil, es(zn.Assign{Target: mem(L, "首项"), Val: v}))
 		add("L之末项 = v", nil, es(zn.Assign{Target: mem(L, "末项"), Val: v}))
 		if !has("M") {
@@ -196,7 +200,7 @@ func init() {
 	mc.Register(&mc.Check{
 		ID:    "C12",
 		Level: "model_checking",
-		Rule: "E2: breadth-first search over operation histories on a list L and a dictionary D (plus one copy of each) from 3 initial states (non-empty, empty, literal with duplicate keys); list operations: guarded write at positions {0,1,2,len,len+1}, 前增 后增 左移 右移 交换 (in and out of range) 合并, setters 首项 末项, copies; dictionary operations over keys 乙 甲 丙 (deliberately unsorted): #k write, 写入 移除 读取, numeric key, copies; values cycle through 0..2 so the space closes under the history bound. After EVERY operation the full observation battery runs on the real interpreter (fresh run of the whole history) and the reference (slice / key list + map): structural value, display text, length, 首项 末项 逆序 逆序∘逆序 包含, guarded reads at 0,1,2,len,len+1 (out of range => error and unchanged), iteration order with indices, 所有索引 所有值, keyed reads of present and absent keys, generated JSON.",
+		Rule: "E2: breadth-first search over operation histories on a list L and a dictionary D (plus one copy of each) from 3 initial states (non-empty, empty, literal with duplicate keys); list operations: guarded write at positions {0,1,2,len,len+1}, 前增 后增 左移 右移 交换 (in and out of range) 合并 (also with the receiver itself among the arguments), setters 首项 末项, copies; dictionary operations over keys 乙 甲 丙 (deliberately unsorted): #k write, 写入 移除 读取, numeric key, copies; values cycle through 0..2 so the space closes under the history bound. Every history of >= 3 operations is also run with the battery only at its end (an observation may itself refresh hidden state). After EVERY operation the full observation battery runs on the real interpreter (fresh run of the whole history) and the reference (slice / key list + map): structural value, display text, length, 首项 末项 逆序 逆序∘逆序 包含, guarded reads at 0,1,2,len,len+1 (out of range => error and unchanged), iteration order with indices, 所有索引 所有值, keyed reads of present and absent keys, generated JSON.",
 		Assumptions: []string{
 			"fractional indices and the numeric convention of 寻找 / 新增 are not asserted (statement leaves them open)",
 			"JSON text of the reference uses Go's shortest float formatting and member order = stored key order",
